@@ -51,6 +51,8 @@ MUTANTS = [
     ('c04-out-events-to-first-client', ['C04'], PROC,
      "'    if (lockAndData->has_value()) lockAndData->value().get().dznPort.out.' \\",
      "'    if (lockAndData->has_value()) lockAndData->value().get().dznPort.out.' \\", 0),   # placeholder (no-op), replaced below
+    ('c04-selection-state-shared-by-all-instances', ['C04', 'C11'], SEL,
+     '    MutexWrapped<ClientSelect> m_clientSelect;', '    static inline MutexWrapped<ClientSelect> m_clientSelect;', 0),
     ('c08-list-of-set-in-overview', ['C08'], 'adv_shell/port_selection.py',
      "explicit_ports.append(f'MTS={sorted(mts_explicit_ports)}')", "explicit_ports.append(f'MTS={list(mts_explicit_ports)}')", 0),
     ('c09-dispatcher-not-put-into-locator', ['C09'], PROC, "               f'.set({facilities.dispatcher.name})))',", "               '))',", 0),
